@@ -146,10 +146,6 @@ func NewTriggerBroker(nchan int) *TriggerBroker {
 // AddConnection connects source -> receiver for group triggers.
 // It is safe to add connections that already exist.
 func (broker *TriggerBroker) AddConnection(source, receiver int) error {
-	// Don't connect a channel to itself. (Silently ignore this request.)
-	if source == receiver {
-		return nil
-	}
 	if receiver < 0 || receiver >= broker.nchannels {
 		return fmt.Errorf("could not add channel %d as a group receiver (nchannels=%d)",
 			receiver, broker.nchannels)
@@ -157,6 +153,10 @@ func (broker *TriggerBroker) AddConnection(source, receiver int) error {
 	if source < 0 || source >= broker.nchannels {
 		return fmt.Errorf("could not add channel %d as a group source (nchannels=%d)",
 			source, broker.nchannels)
+	}
+	// Don't connect a channel to itself. (Silently ignore this request.)
+	if source == receiver {
+		return nil
 	}
 	if !broker.sources[receiver][source] {
 		broker.nconnections++
@@ -171,6 +171,10 @@ func (broker *TriggerBroker) DeleteConnection(source, receiver int) error {
 	if receiver < 0 || receiver >= broker.nchannels {
 		return fmt.Errorf("could not remove channel %d as a group receiver (nchannels=%d)",
 			receiver, broker.nchannels)
+	}
+	if source < 0 || source >= broker.nchannels {
+		return fmt.Errorf("could not remove channel %d as a group source (nchannels=%d)",
+			source, broker.nchannels)
 	}
 	if broker.sources[receiver][source] {
 		broker.nconnections--
